@@ -69,7 +69,7 @@ PROPS = {
     },
     "C01": {
         "theorems": T("C01", ["immutable_exact", "siteDiag_iff", "immFieldHit_iff", "immNode_eq_sites", "immutable_silent_reads", "immutable_silent", "immutable_receiver_rule"]) + ["GGV.Model.Prog.immDecl_eq"],
-        "suites": [("prog", {"focus": "IMM,ANN:IKM"})],
+        "suites": [("prog", {"focus": "IMM,ANN:IKM"}), ("prog", {"focus": "IMM,ANN:IKM", "scan": "1", "testfiles": "1", "n": 30, "nocorpus": "1"})],
         "assumptions": [
             "programs are abstracted to APF: per declaration the preorder node list ast.Inspect visits, with go/types information attached; DeclShape (FuncDecl nodes only head func declarations) is go/ast's shape and is checked on every input (wf=ok)",
             "supported fragment as stated by the property: non-generic defined types, direct imports; write / use forms the property does not list are neither required nor forbidden",
@@ -79,7 +79,7 @@ PROPS = {
     },
     "C02": {
         "theorems": T("C02", ["constructor_exact", "ctorNode_eq_sites", "ctorHit_iff", "constructor_silent_var", "constructor_silent_unannotated", "constructor_silent_inside", "constructor_foreign_name_not_exempt", "ctor_names_from_grammar"]) + ["GGV.Model.Prog.ctorDecl_eq"],
-        "suites": [("prog", {"focus": "CTOR,ANN:K"})],
+        "suites": [("prog", {"focus": "CTOR,ANN:K"}), ("prog", {"focus": "CTOR,ANN:K", "scan": "1", "testfiles": "1", "n": 30, "nocorpus": "1"})],
         "assumptions": [
             "programs are abstracted to APF: per declaration the preorder node list ast.Inspect visits, with go/types information attached; DeclShape (FuncDecl nodes only head func declarations) is go/ast's shape and is checked on every input (wf=ok)",
             "supported fragment as stated by the property: non-generic defined types, direct imports; write / use forms the property does not list are neither required nor forbidden",
@@ -89,7 +89,7 @@ PROPS = {
     },
     "C03": {
         "theorems": T("C03", ["testonly_exact", "tonlFile_eq", "tonlWalk_decl", "tonlNode_eq", "testonly_test_files_silent", "testonly_context_prune", "testonly_same_name_not_reported", "testonly_first_use"]) + ["GGV.Model.Prog.mem_runEvs"],
-        "suites": [("prog", {"focus": "TONL,ANN:T"})],
+        "suites": [("prog", {"focus": "TONL,ANN:T"}), ("prog", {"focus": "TONL,ANN:T", "scan": "1", "testfiles": "1", "n": 30, "nocorpus": "1"})],
         "assumptions": [
             "programs are abstracted to APF: per declaration the preorder node list ast.Inspect visits, with go/types information attached; DeclShape (FuncDecl nodes only head func declarations) is go/ast's shape and is checked on every input (wf=ok)",
             "supported fragment as stated by the property: non-generic defined types, direct imports; write / use forms the property does not list are neither required nor forbidden",
@@ -99,7 +99,7 @@ PROPS = {
     },
     "C04": {
         "theorems": T("C04", ["packageonly_exact", "pkgoFile_eq", "pkgoNode_eq", "allow_union", "allowed_iff", "unannotated_silent", "declaring_always_allowed", "bare_only_D"]) + ["GGV.Model.Prog.mem_runEvs"],
-        "suites": [("prog", {"focus": "PKGO,ANN:P"})],
+        "suites": [("prog", {"focus": "PKGO,ANN:P"}), ("prog", {"focus": "PKGO,ANN:P", "scan": "1", "testfiles": "1", "n": 30, "nocorpus": "1"})],
         "assumptions": [
             "programs are abstracted to APF: per declaration the preorder node list ast.Inspect visits, with go/types information attached; DeclShape (FuncDecl nodes only head func declarations) is go/ast's shape and is checked on every input (wf=ok)",
             "supported fragment as stated by the property: non-generic defined types, direct imports; write / use forms the property does not list are neither required nor forbidden",
@@ -108,8 +108,8 @@ PROPS = {
                          "APF extractor (go/ast + go/types, independent of gogreement) as the abstraction function; go/types for type information"],
     },
     "C06": {
-        "theorems": T("C06", ["facts_serialisable", "fact_types_distinct", "export_unconditional", "checkers_require_reader", "depends_only_on_direct_imports", "import_uniform", "gob_norm_invariant"]),
-        "suites": [("bin", {"mode": "drivers"}), ("prog", {"focus": "ANN:IKTMP", "n": 80})],
+        "theorems": T("C06", ["facts_serialisable", "fact_types_distinct", "export_unconditional", "checkers_require_reader", "depends_only_on_direct_imports", "import_uniform", "gob_norm_invariant", "importer_as_declarer"]),
+        "suites": [("bin", {"mode": "drivers"}), ("prog", {"focus": "ANN:IKTMP", "n": 80, "xpkg": "1"})],
         "binary": True, "table_diag": True,
         "assumptions": ["PARTIAL: gob's byte-level encoding, vetx file handling by cmd/go and export-data importers are exercised (both drivers, subsets, gob sanity check), not modelled",
                         "facts are modelled as the annotation lists without positions (no checker reads an imported position)"],
@@ -172,7 +172,8 @@ PROPS = {
     },
     "C14": {
         "theorems": T("C14", ["shouldSkip_char", "scan_tests_like_any", "tonl_never_in_tests", "excluded_inert", "no_diag_in_excluded", "imm_site_pos", "ctor_site_pos"]),
-        "suites": [("excl", {}), ("excl", {"scan": "1"}), ("excl", {"paths": "zz,gen_"}), ("excl", {"scan": "1", "paths": "zz_,in_test"})],
+        "suites": [("excl", {}), ("excl", {"scan": "1"}), ("excl", {"paths": "zz,gen_"}), ("excl", {"scan": "1", "paths": "zz_,in_test"}), ("bin", {"mode": "excludedir"})],
+        "binary": True,
         "assumptions": ["declarations in excluded files still exist for the type checker; the theorem keeps the type information fixed"],
         "trusted_base": ["hand-written whole-program model GGV.Model.Prog, tied by the prog correspondence (real analyzers in-process vs model)", "APF extractor (go/ast + go/types, independent of gogreement)"],
     },
